@@ -816,6 +816,61 @@ def schema_sexp(doc):
     return "(doc " + " ".join(out) + ")"
 
 
+def lit_sexp(items, ty, lit):
+    """an IDL default literal for a field of type ty, in the form the Lean model of lit_into_ty reads (Build/Lower.lean).  Resolved
+    here and NOT modelled there: the text of a double and int -> double, string escapes, an enum member's number, a constant's
+    declaration, struct-literal keys -> field ids.  Everything else (which arm, int -> bool, ranges, enum `as` casts, container
+    recursion and hash-container construction, typedef chains, field filling of struct literals) is decided by the model."""
+    k = ty[0]
+    if lit[0] == "const":
+        cty, clit = CONSTS[lit[1]]
+        return f"(c {schema_ty(cty)} {lit_sexp(items, cty, clit)})"
+    if k == "ref":
+        it = items[ty[1]]
+        if it["kind"] == "typedef":
+            return lit_sexp(items, it["ty"], lit)
+        if it["kind"] == "enum":
+            if lit[0] == "enum":
+                return f"(v {dict(items[lit[1]]['members'])[lit[2]]})"
+            if lit[0] == "int":
+                return f"(i {lit[1]})"
+        if it["kind"] in ("struct", "exception") and lit[0] == "map":
+            ents = []
+            for a, b in lit[1]:
+                f = next(f for f in it["fields"] if f["name"] == a[1])
+                ents.append(f"({f['id']} {lit_sexp(items, f['ty'], b)})")
+            return "(r" + "".join(" " + e for e in ents) + ")"
+        raise ValueError((ty, lit))
+    if lit[0] == "enum":
+        return f"(v {dict(items[lit[1]]['members'])[lit[2]]})"
+    if k == "double":
+        return f"(d {dbl_bits(float(lit[1])):016x})"
+    if lit[0] == "bool":
+        return f"(b {int(lit[1])})"
+    if lit[0] == "int":
+        return f"(i {lit[1]})"
+    if lit[0] == "str":
+        return f"(s {unescape(lit[1]).encode().hex() or '-'})"
+    if lit[0] == "list":
+        inner = ty[1] if k in ("list", "set") else ("bool",)
+        return "(l" + "".join(" " + lit_sexp(items, inner, x) for x in lit[1]) + ")"
+    if lit[0] == "map":
+        return "(m" + "".join(f" ({lit_sexp(items, ty[1], a)} {lit_sexp(items, ty[2], b)})" for a, b in lit[1]) + ")"
+    raise ValueError((ty, lit))
+
+
+def lits_sexp(doc):
+    """(lits (Struct id literal) ...): every field default of the document as a literal, for the model's own lowering"""
+    items = all_items(doc)
+    out = []
+    for it in items.values():
+        if it["kind"] in ("struct", "exception"):
+            for f in it["fields"]:
+                if f.get("default") is not None:
+                    out.append(f"({it['name']} {f['id']} {lit_sexp(items, f['ty'], f['default'])})")
+    return "(lits" + "".join(" " + x for x in out) + ")"
+
+
 # ----------------------------------------------------------------------------- corpus
 def F(i, name, ty, req="default", default=None, ann=None):
     return {"id": i, "name": name, "ty": ty, "req": req, "default": default, "ann": ann}
